@@ -69,7 +69,9 @@ func addField(e *zerolog.Event, name, vc string, i int) (*zerolog.Event, interfa
 	case "null":
 		return e.Interface(name, nil), nil
 	case "obj":
-		return e.Dict(name, zerolog.Dict().Int("b", 1).Str("a", "x y")), map[string]interface{}{"b": json.Number("1"), "a": "x y"}
+		// a nested number beyond 2^53 and a float with more digits than float64 prints: both survive only with UseNumber
+		return e.Dict(name, zerolog.Dict().Int64("b", 9007199254740993).Str("a", "x y").RawJSON("c", []byte("0.12345678901234567890"))),
+			map[string]interface{}{"b": json.Number("9007199254740993"), "a": "x y", "c": json.Number("0.12345678901234567890")}
 	case "arr":
 		return e.Ints(name, []int{1, 2}), []interface{}{json.Number("1"), json.Number("2")}
 	case "objpct": // characters that are special to formatting verbs, quoting and escaping, inside a nested value
